@@ -35,6 +35,7 @@ import (
 	"istio.io/istio/pkg/config/schema/kind"
 	"istio.io/istio/pkg/config/visibility"
 	"istio.io/istio/pkg/kube/kclient"
+	"istio.io/istio/pkg/maps"
 	"istio.io/istio/pkg/slices"
 	"istio.io/istio/pkg/util/sets"
 )
@@ -433,7 +434,9 @@ func (e *endpointSliceCache) Get(hostname host.Name) []*model.IstioEndpoint {
 func (e *endpointSliceCache) get(hostname host.Name) []*model.IstioEndpoint {
 	var endpoints []*model.IstioEndpoint
 	found := sets.New[endpointKey]()
-	for _, eps := range e.endpointsByServiceAndSlice[hostname] {
+	// in the order of the slice names: neither the order of the endpoints nor which of two slices wins for an
+	// address both list may depend on map iteration order
+	for _, eps := range maps.SeqStable(e.endpointsByServiceAndSlice[hostname]) {
 		for _, ep := range eps {
 			key := endpointKey{ep.FirstAddressOrNil(), ep.ServicePortName}
 			if found.InsertContains(key) {
